@@ -135,6 +135,28 @@ func Materialise(w *World) (*Site, error) {
 		refs = first
 		s.laterRefs = later
 	}
+	// symbolic references are always loose files
+	var symrefs []Ref
+	{
+		var plain []Ref
+		for _, r := range refs {
+			if r.Symref != "" {
+				symrefs = append(symrefs, r)
+			} else {
+				plain = append(plain, r)
+			}
+		}
+		refs = plain
+	}
+	for _, r := range symrefs {
+		p := filepath.Join(s.GitDir, filepath.FromSlash(r.Name))
+		if err := os.MkdirAll(filepath.Dir(p), 0o755); err != nil {
+			return fail(err)
+		}
+		if err := os.WriteFile(p, []byte("ref: "+r.Symref+"\n"), 0o644); err != nil {
+			return fail(fmt.Errorf("writing symbolic ref %q: %w", r.Name, err))
+		}
+	}
 	if w.Layout == "packed-refs" || w.Layout == "packed" {
 		sort.Slice(refs, func(i, j int) bool { return refs[i].Name < refs[j].Name })
 		var b bytes.Buffer
